@@ -40,7 +40,10 @@ pub fn install_panic_hook() {
                 .unwrap_or_default();
             record_panic(format!("{msg} @ {loc}"));
             let quiet = QUIET.with(|q| *q.borrow());
-            if !quiet && std::env::var_os("VERIF_VERBOSE_PANICS").is_some() {
+            let is_main = std::thread::current().name() == Some("main");
+            if is_main
+                || (!quiet && std::env::var_os("VERIF_VERBOSE_PANICS").is_some())
+            {
                 default(info);
             }
         }));
